@@ -387,6 +387,7 @@ def step (ctx : Ctx) (lhs : String) (implObs : String := "") : Ctx × String :=
        s!"ok listen={",".intercalate a.listen} dir={a.dataDir} days={a.snapshotDays} versions={a.snapshotVersions} allow={al}")
   | "pool" :: _ => (ctx, "")
   | ["restart"] => (ctx, "ok")
+  | ["dircheck"] => (ctx, "ok")
   | "open" :: _ => (ctx, "")
   | "nowalk" :: _ => (ctx, "empty")
   | "expect" :: _ => (ctx, "")
